@@ -61,7 +61,8 @@ type ParamDecl struct {
 	Type string // Go source text of the type
 }
 
-func (p ParamDecl) isPtr() bool { return strings.HasPrefix(p.Type, "*") }
+// isPtr: the parameter denotes mutable state the callee may change (a pointer, or a map): old(p...) reads it in the pre-state.
+func (p ParamDecl) isPtr() bool { return strings.HasPrefix(p.Type, "*") || strings.HasPrefix(p.Type, "map[") }
 
 // Clause is one contract clause compiled to a Go function.
 type Clause struct {
